@@ -30,6 +30,21 @@ OPS = {'_ne_': operator.ne, '_le_': operator.le, '_lt_': operator.lt, '_ge_': op
 D0 = REAL(2026, 1, 5)
 
 
+def dec(v):
+    """case values that JSON cannot carry: {'$fs': [...]} is a frozenset (a partially ordered value), {'$nan': 1} is float('nan')
+    (a number that satisfies no comparison)"""
+    if isinstance(v, dict) and set(v) == {'$fs'}:
+        return frozenset(v['$fs'])
+    if isinstance(v, dict) and set(v) == {'$nan'}:
+        return NAN
+    if isinstance(v, list):
+        return [dec(x) for x in v]
+    return v
+
+
+NAN = float('nan')
+
+
 def getv(t, k):
     if k == 'id':
         return t.id
@@ -87,6 +102,11 @@ def gen_world(rnd):
             kw['kpi_'] = rnd.choice([1, 2])
         if rnd.random() < 0.12:
             kw['clone'] = rnd.choice([None, 'x', 'alpha'])      # a user attribute that happens to carry the name of a Task method
+        if rnd.random() < 0.25:
+            # values that are only partially ordered (sets) or not ordered at all (NaN): "a >= b" is false and so is "a < b"
+            kw['grp'] = rnd.choice([None, {'$fs': []}, {'$fs': [1]}, {'$fs': [1, 2]}, {'$fs': [2, 3]}, {'$fs': [1, 2, 3]}])
+        if rnd.random() < 0.1:
+            kw['score'] = rnd.choice([{'$nan': 1}, 1, 2.5, None])
         tasks.append(kw)
     parents = [None if (k == 0 or rnd.random() < 0.45) else rnd.randrange(k) for k in range(n)]
     detached = [rnd.random() < 0.1 for _ in range(n)]
@@ -111,7 +131,7 @@ def gen_world(rnd):
 
 
 def build(world):
-    u = Universe({'tasks': world['tasks'], 'wbs': world['wbs']})
+    u = Universe({'tasks': [{k_: dec(v_) for k_, v_ in kw_.items()} for kw_ in world['tasks']], 'wbs': world['wbs']})
     w = u.wbss[0]
     for i, p in enumerate(world['parents']):
         t = u.tasks[i]
@@ -134,11 +154,12 @@ def build(world):
 def gen_filters(rnd):
     kw = {}
     for _ in range(rnd.randint(1, 3)):
-        attr = rnd.choice(['id', 'parent_id', 'name', 'resource', 'estimate', 'spent', 'milestone', 'tag', 'prio', 'nope', 'start', 'min_start', 'end', 'iteration', 'region', 'kpi_', 'clone'])
-        num = attr in ('id', 'parent_id', 'estimate', 'spent', 'prio', 'iteration', 'kpi_')
+        attr = rnd.choice(['id', 'parent_id', 'name', 'resource', 'estimate', 'spent', 'milestone', 'tag', 'prio', 'nope', 'start', 'min_start', 'end', 'iteration', 'region', 'kpi_', 'clone', 'grp', 'score'])
+        num = attr in ('id', 'parent_id', 'estimate', 'spent', 'prio', 'iteration', 'kpi_', 'score')
+        setv = attr == 'grp'
         strv = attr in ('name', 'resource', 'tag', 'region', 'clone')
         date = attr in ('start', 'end', 'min_start')
-        kinds = ['', '_in_', '_not_in_', '_is_none_', '_is_not_none_', '_ne_'] + (['_lt_', '_le_', '_gt_', '_ge_'] if num or date else []) + \
+        kinds = ['', '_in_', '_not_in_', '_is_none_', '_is_not_none_', '_ne_'] + (['_lt_', '_le_', '_gt_', '_ge_'] * (3 if setv else 1) if num or date or setv else []) + \
             (['_like_', '_not_like_'] if strv else [])
         kind = rnd.choice(kinds)
         if kind in ('_is_none_', '_is_not_none_'):
@@ -147,8 +168,10 @@ def gen_filters(rnd):
             v = rnd.sample([None, 1, 2, 3, 'x', 'alpha', 'R1', 0, 2.5, True, 8, 'ab'], 3)
         elif kind in ('_like_', '_not_like_'):
             v = rnd.choice(['a', '^a', 'x$', 'R\\d', 'b|y', 'alpha', '^x', '1'])
+        elif setv:
+            v = rnd.choice([{'$fs': []}, {'$fs': [1]}, {'$fs': [2]}, {'$fs': [1, 2]}, {'$fs': [2, 3]}, {'$fs': [1, 2, 3]}])
         elif num:
-            v = rnd.choice([0, 1, 2, 2.5, 3, 8])
+            v = rnd.choice([0, 1, 2, 2.5, 3, 8] + ([{'$nan': 1}] if attr == 'score' else []))
         elif date:
             v = D0 + td(days=rnd.randint(0, 8))
         elif attr == 'milestone':
@@ -203,7 +226,7 @@ def judge(case, acc):
     u = build(case['world'])
     for step in case['steps']:
         lst, content = pick_list(u, step)
-        kw = step.get('kw') or {}
+        kw = {k_: dec(v_) for k_, v_ in (step.get('kw') or {}).items()}
         ids = step.get('callable_ids')
         key = (lambda t, ids=ids: t.id in ids) if ids is not None else None
         exp = [t for t in content if (key is None or key(t)) and all(ref(t, k, v) for k, v in kw.items())]
@@ -224,6 +247,12 @@ def judge(case, acc):
             acc.count('estimate_spent_filters')
         if key is not None:
             acc.count('callable_queries')
+        for k, v in kw.items():
+            for s_ in OPS:
+                if k.endswith(s_) and s_ != '_ne_':
+                    vals = [getv(t, k[:-len(s_)]) for t in content]
+                    if any(a is not None and not OPS[s_](a, v) and not OPS[{'_lt_': '_ge_', '_le_': '_gt_', '_gt_': '_le_', '_ge_': '_lt_'}[s_]](a, v) for a in vals):
+                        acc.count('comparisons_on_unordered_values')
         for k in kw:
             for s_ in SUFFIXES:
                 if k.endswith(s_) and (s_ in OPS or 'like' in s_) and any(getv(t, k[:-len(s_)]) is None for t in content):
